@@ -865,6 +865,13 @@ Definition maxIncludeDepth : nat := 7.
 Definition defaultTtl : N := 3600.
 Definition zero_hdr : hdr := mkHdr [] 0 0 0.
 
+(* the lexer's error token, if the stream ends in one *)
+Definition lex_err_tok (toks : list tok) : option tok :=
+  match rev toks with
+  | t :: _ => if t_err t then Some t else None
+  | [] => None
+  end.
+
 Section WithFiles.
   (* fsys.Open and os.Open: the content of the file, or None when opening fails *)
   Variable fs_open : bytes -> option bytes.
@@ -880,7 +887,17 @@ Section WithFiles.
     let o := match origin with [] => [] | _ => fqdn origin end in
     if match o with [] => false | _ => negb (is_domain_name o) end
     then [EErr (mkErr (c_file cf) (B "bad initial origin name") eof_tok)]
-    else run cf (S (length toks)) (mkPst o dt zero_hdr) toks rerr.
+    else
+      let evs := run cf (S (length toks)) (mkPst o dt zero_hdr) toks rerr in
+      (* a lexer error is sticky: the error token is handed out once (it is the last token of the stream) and
+         an RDATA or directive parser that skips over tokens may have consumed it; when the parser reaches
+         the end of its input without having reported anything it reports that token (fix be621f4 of the
+         library; before, the rest of the zone was dropped silently) *)
+      if failed evs then evs
+      else match lex_err_tok toks with
+           | Some t => evs ++ [EErr (mkErr (c_file cf) (t_text t) t)]
+           | None => evs
+           end.
 
   (* one call of Next on a parser whose sub parser is exhausted, and what follows
      it; [k] stands for the calls after this one, inc/gen build the sub parsers *)
